@@ -26,13 +26,13 @@ char **environ;
 
 static void fault(int e)
 {
-  g.err = e;
-  g.last_fault = e;
-  if (g.faults == 0) {
-    g.first_errno = e;
+  g.e.err = e;
+  g.e.last_fault = e;
+  if (g.e.faults == 0) {
+    g.e.first_errno = e;
   }
-  if (g.faults < 1000) {
-    g.faults++;
+  if (g.e.faults < 1000) {
+    g.e.faults++;
   }
 }
 
@@ -53,17 +53,17 @@ static int maybe_fault(void)
 
 static void os_call(void)
 {
-  if (g.os_calls < 1000000) {
-    g.os_calls++;
+  if (g.e.os_calls < 1000000) {
+    g.e.os_calls++;
   }
 }
 
 bool ghost_wf(void)
 {
-  return (g.lib & ~g.open) == 0 && (g.cloexec & ~g.open) == 0 &&
-         (g.nonblock & ~g.open) == 0 && (g.rd & ~g.open) == 0 &&
-         (g.wr & ~g.open) == 0 && g.now > ((int64_t) 1 << 32) &&
-         g.now < ((int64_t) 1 << 52) && g.faults == 0 && g.os_calls == 0;
+  return (g.fds.lib & ~g.fds.open) == 0 && (g.fds.cloexec & ~g.fds.open) == 0 &&
+         (g.fds.nonblock & ~g.fds.open) == 0 && (g.fds.rd & ~g.fds.open) == 0 &&
+         (g.fds.wr & ~g.fds.open) == 0 && g.now > ((int64_t) 1 << 32) &&
+         g.now < ((int64_t) 1 << 52) && g.e.faults == 0 && g.e.os_calls == 0;
 }
 
 /* Nondeterministic, well-formed initial state. Fields not mentioned keep the
@@ -74,12 +74,12 @@ void ghost_init(void)
   g = (struct ghost){ 0 };
   gc = (struct ghost_cfg){ 0 };
   gc.plan_invalid_at = -1;
-  g.open = nondet_uint();
-  g.lib = nondet_uint() & g.open;
-  g.cloexec = nondet_uint() & g.open;
-  g.nonblock = nondet_uint() & g.open;
-  g.rd = nondet_uint() & g.open;
-  g.wr = nondet_uint() & g.open;
+  g.fds.open = nondet_uint();
+  g.fds.lib = nondet_uint() & g.fds.open;
+  g.fds.cloexec = nondet_uint() & g.fds.open;
+  g.fds.nonblock = nondet_uint() & g.fds.open;
+  g.fds.rd = nondet_uint() & g.fds.open;
+  g.fds.wr = nondet_uint() & g.fds.open;
   /* arbitrary object identities behind the descriptors (4 x 8 bytes) */
   {
     unsigned long w[4];
@@ -87,17 +87,17 @@ void ghost_init(void)
     w[1] = nondet_ulong();
     w[2] = nondet_ulong();
     w[3] = nondet_ulong();
-    memcpy(g.obj, w, sizeof(g.obj));
+    memcpy(g.fds.obj, w, sizeof(g.fds.obj));
   }
   g.now = nondet_long();
   __CPROVER_assume(g.now > ((int64_t) 1 << 32) && g.now < ((int64_t) 1 << 52));
-  g.err = nondet_int(); /* errno: stale value of some earlier call */
-  __CPROVER_assume(g.err >= 0 && g.err < 134);
+  g.e.err = nondet_int(); /* errno: stale value of some earlier call */
+  __CPROVER_assume(g.e.err >= 0 && g.e.err < 134);
   g.sigmask = nondet_ulong();
   g.disp_default = nondet_ulong();
   gc.cfg_nofault = nondet_bool();
-  g.faults = 0;
-  g.os_calls = 0;
+  g.e.faults = 0;
+  g.e.os_calls = 0;
   g.in_fd = -1;
   gc.want_exit_fd = -1;
 }
@@ -107,13 +107,13 @@ void ghost_init(void)
 static void fd_release(int fd)
 {
   uint32_t m = ~BIT(fd);
-  g.open &= m;
-  g.lib &= m;
-  g.cloexec &= m;
-  g.nonblock &= m;
-  g.rd &= m;
-  g.wr &= m;
-  g.obj[fd] = OBJ_NONE;
+  g.fds.open &= m;
+  g.fds.lib &= m;
+  g.fds.cloexec &= m;
+  g.fds.nonblock &= m;
+  g.fds.rd &= m;
+  g.fds.wr &= m;
+  g.fds.obj[fd] = OBJ_NONE;
 }
 
 /* an arbitrary currently closed descriptor (a superset of "lowest free", so
@@ -121,7 +121,7 @@ static void fd_release(int fd)
 static int fd_fresh(void)
 {
   int fd = nondet_int();
-  if (!FD_OK(fd) || (g.open & BIT(fd)) != 0) {
+  if (!FD_OK(fd) || (g.fds.open & BIT(fd)) != 0) {
     return -1;
   }
   return fd;
@@ -137,19 +137,19 @@ int verif_pipe(int fds[2])
   }
   int a = fd_fresh();
   int b = fd_fresh();
-  if (a < 0 || b < 0 || a == b || g.next_pipe >= 100) {
+  if (a < 0 || b < 0 || a == b || g.fds.next_pipe >= 100) {
     fault(EMFILE); /* descriptor table full */
     return -1;
   }
-  g.open |= BIT(a) | BIT(b);
-  g.lib |= BIT(a) | BIT(b);
-  g.cloexec &= ~(BIT(a) | BIT(b));
-  g.nonblock &= ~(BIT(a) | BIT(b));
-  g.rd = (g.rd | BIT(a)) & ~BIT(b);
-  g.wr = (g.wr | BIT(b)) & ~BIT(a);
-  g.obj[a] = (uint8_t) (OBJ_PIPE_BASE + 2 * g.next_pipe);
-  g.obj[b] = (uint8_t) (OBJ_PIPE_BASE + 2 * g.next_pipe + 1);
-  g.next_pipe++;
+  g.fds.open |= BIT(a) | BIT(b);
+  g.fds.lib |= BIT(a) | BIT(b);
+  g.fds.cloexec &= ~(BIT(a) | BIT(b));
+  g.fds.nonblock &= ~(BIT(a) | BIT(b));
+  g.fds.rd = (g.fds.rd | BIT(a)) & ~BIT(b);
+  g.fds.wr = (g.fds.wr | BIT(b)) & ~BIT(a);
+  g.fds.obj[a] = (uint8_t) (OBJ_PIPE_BASE + 2 * g.fds.next_pipe);
+  g.fds.obj[b] = (uint8_t) (OBJ_PIPE_BASE + 2 * g.fds.next_pipe + 1);
+  g.fds.next_pipe++;
   fds[0] = a;
   fds[1] = b;
   return 0;
@@ -166,11 +166,11 @@ int verif_close(int fd)
     /* destroy: nothing is released before the stop sequence has run as far as it
        can (child reaped, an action failed, or every step taken) */
     V_ASSERT("C15/os.close.only_after_stop_sequence",
-             g.child_reaped || g.faults > 0 || g.plan_pos >= gc.plan_n ||
+             g.child_reaped || g.e.faults > 0 || g.plan_pos >= gc.plan_n ||
                  (gc.plan_invalid_at >= 0 && g.plan_pos == gc.plan_invalid_at));
   }
   if (!IS_OPEN(fd)) {
-    g.err = EBADF;
+    g.e.err = EBADF;
     return -1;
   }
   fd_release(fd); /* Linux releases the descriptor even if an error is reported */
@@ -178,7 +178,7 @@ int verif_close(int fd)
      it is not counted among the failures start has to report: only errno moves */
   int e = maybe_fault();
   if (e) {
-    g.err = e;
+    g.e.err = e;
     return -1;
   }
   return 0;
@@ -188,12 +188,12 @@ int verif_fcntl(int fd, int cmd, long arg)
 {
   os_call();
   if (!IS_OPEN(fd)) {
-    g.err = EBADF;
+    g.e.err = EBADF;
     return -1;
   }
   if (cmd == F_GETFD) {
     /* cannot fail on an open descriptor */
-    return (g.cloexec & BIT(fd)) ? FD_CLOEXEC : 0;
+    return (g.fds.cloexec & BIT(fd)) ? FD_CLOEXEC : 0;
   }
   int e = maybe_fault();
   if (e) {
@@ -201,19 +201,19 @@ int verif_fcntl(int fd, int cmd, long arg)
     return -1;
   }
   if (cmd == F_SETFD) {
-    g.cloexec = (arg & FD_CLOEXEC) ? (g.cloexec | BIT(fd)) : (g.cloexec & ~BIT(fd));
+    g.fds.cloexec = (arg & FD_CLOEXEC) ? (g.fds.cloexec | BIT(fd)) : (g.fds.cloexec & ~BIT(fd));
     return 0;
   }
   if (cmd == F_GETFL) {
-    int acc = (g.rd & BIT(fd)) ? ((g.wr & BIT(fd)) ? O_RDWR : O_RDONLY) : O_WRONLY;
-    return acc | ((g.nonblock & BIT(fd)) ? O_NONBLOCK : 0);
+    int acc = (g.fds.rd & BIT(fd)) ? ((g.fds.wr & BIT(fd)) ? O_RDWR : O_RDONLY) : O_WRONLY;
+    return acc | ((g.fds.nonblock & BIT(fd)) ? O_NONBLOCK : 0);
   }
   if (cmd == F_SETFL) {
-    g.nonblock = (arg & O_NONBLOCK) ? (g.nonblock | BIT(fd)) : (g.nonblock & ~BIT(fd));
+    g.fds.nonblock = (arg & O_NONBLOCK) ? (g.fds.nonblock | BIT(fd)) : (g.fds.nonblock & ~BIT(fd));
     return 0;
   }
   V_ASSERT("C14/os.fcntl.known_command", 0);
-  g.err = EINVAL;
+  g.e.err = EINVAL;
   return -1;
 }
 
@@ -251,14 +251,14 @@ int verif_open(const char *path, int flags, long mode)
   } else if (is_dev_null(path)) {
     obj = OBJ_DEVNULL;
   }
-  g.open |= BIT(fd);
-  g.lib |= BIT(fd);
-  g.cloexec = (flags & O_CLOEXEC) ? (g.cloexec | BIT(fd)) : (g.cloexec & ~BIT(fd));
-  g.nonblock = (flags & O_NONBLOCK) ? (g.nonblock | BIT(fd)) : (g.nonblock & ~BIT(fd));
+  g.fds.open |= BIT(fd);
+  g.fds.lib |= BIT(fd);
+  g.fds.cloexec = (flags & O_CLOEXEC) ? (g.fds.cloexec | BIT(fd)) : (g.fds.cloexec & ~BIT(fd));
+  g.fds.nonblock = (flags & O_NONBLOCK) ? (g.fds.nonblock | BIT(fd)) : (g.fds.nonblock & ~BIT(fd));
   int acc = flags & O_ACCMODE;
-  g.rd = (acc == O_RDONLY || acc == O_RDWR) ? (g.rd | BIT(fd)) : (g.rd & ~BIT(fd));
-  g.wr = (acc == O_WRONLY || acc == O_RDWR) ? (g.wr | BIT(fd)) : (g.wr & ~BIT(fd));
-  g.obj[fd] = obj;
+  g.fds.rd = (acc == O_RDONLY || acc == O_RDWR) ? (g.fds.rd | BIT(fd)) : (g.fds.rd & ~BIT(fd));
+  g.fds.wr = (acc == O_WRONLY || acc == O_RDWR) ? (g.fds.wr | BIT(fd)) : (g.fds.wr & ~BIT(fd));
+  g.fds.obj[fd] = obj;
   return fd;
 }
 
@@ -278,13 +278,13 @@ int verif_dup2(int oldfd, int newfd)
   if (oldfd == newfd) {
     return newfd;
   }
-  g.open |= BIT(newfd);
-  g.lib |= BIT(newfd);
-  g.cloexec &= ~BIT(newfd);
-  g.nonblock = (g.nonblock & BIT(oldfd)) ? (g.nonblock | BIT(newfd)) : (g.nonblock & ~BIT(newfd));
-  g.rd = (g.rd & BIT(oldfd)) ? (g.rd | BIT(newfd)) : (g.rd & ~BIT(newfd));
-  g.wr = (g.wr & BIT(oldfd)) ? (g.wr | BIT(newfd)) : (g.wr & ~BIT(newfd));
-  g.obj[newfd] = g.obj[oldfd];
+  g.fds.open |= BIT(newfd);
+  g.fds.lib |= BIT(newfd);
+  g.fds.cloexec &= ~BIT(newfd);
+  g.fds.nonblock = (g.fds.nonblock & BIT(oldfd)) ? (g.fds.nonblock | BIT(newfd)) : (g.fds.nonblock & ~BIT(newfd));
+  g.fds.rd = (g.fds.rd & BIT(oldfd)) ? (g.fds.rd | BIT(newfd)) : (g.fds.rd & ~BIT(newfd));
+  g.fds.wr = (g.fds.wr & BIT(oldfd)) ? (g.fds.wr | BIT(newfd)) : (g.fds.wr & ~BIT(newfd));
+  g.fds.obj[newfd] = g.fds.obj[oldfd];
   return newfd;
 }
 
@@ -306,7 +306,7 @@ int verif_fileno(FILE *f)
     if (f == VERIF_USER_FILE) {
       fault(EBADF); /* an unusable redirect target: start has to report it */
     } else {
-      g.err = EBADF; /* a missing parent stream: the library falls back to the null device */
+      g.e.err = EBADF; /* a missing parent stream: the library falls back to the null device */
     }
     return -1;
   }
@@ -320,26 +320,26 @@ int verif_fileno(FILE *f)
 ssize_t verif_read(int fd, void *buf, size_t n)
 {
   os_call();
-  if (g.rd_calls < 1000) {
-    g.rd_calls++;
+  if (g.rl.rd_calls < 1000) {
+    g.rl.rd_calls++;
   }
-  g.rd_fd = fd;
-  g.rd_buf = buf;
-  g.rd_n = n;
-  g.rd_errno = 0;
+  g.rl.rd_fd = fd;
+  g.rl.rd_buf = buf;
+  g.rl.rd_n = n;
+  g.rl.rd_errno = 0;
   V_ASSERT("C02/os.read.descriptor_open", IS_OPEN(fd));
   if (!IS_OPEN(fd)) {
-    g.err = EBADF;
-    g.rd_errno = EBADF;
-    g.rd_ret = -1;
+    g.e.err = EBADF;
+    g.rl.rd_errno = EBADF;
+    g.rl.rd_ret = -1;
     return -1;
   }
-  bool blocking = (g.nonblock & BIT(fd)) == 0;
+  bool blocking = (g.fds.nonblock & BIT(fd)) == 0;
 
   /* The error pipes between fork and exec (assumed pipe law, DESIGN §7-9): the
      parent reads what the child wrote; end-of-file iff the child closed its end
      without reporting (it reached exec, or returned in fork mode). */
-  if (!g.in_child && g.child_pid > 0 && n == sizeof(int) && g.obj[fd] >= OBJ_PIPE_BASE &&
+  if (!g.in_child && g.child_pid > 0 && n == sizeof(int) && g.fds.obj[fd] >= OBJ_PIPE_BASE &&
       (g.fork_stage == 1 || g.fork_stage == 2)) {
     int stage = g.fork_stage;
     g.fork_stage = stage + 1;
@@ -347,18 +347,18 @@ ssize_t verif_read(int fd, void *buf, size_t n)
 #ifndef VERIF_EXCLUDE_D10
     if (!gc.cfg_nofault && nondet_bool()) {
       fault(EINTR);
-      g.rd_errno = EINTR;
-      g.rd_ret = -1;
+      g.rl.rd_errno = EINTR;
+      g.rl.rd_ret = -1;
       return -1;
     }
 #endif
     if ((stage == 1 && g.child_fate == FATE_FAILED_EARLY) ||
         (stage == 2 && g.child_fate == FATE_FAILED_LATE)) {
       *(int *) buf = g.child_fate_errno;
-      g.rd_ret = (long) sizeof(int);
+      g.rl.rd_ret = (long) sizeof(int);
       return (ssize_t) sizeof(int);
     }
-    g.rd_ret = 0;
+    g.rl.rd_ret = 0;
     return 0;
   }
 
@@ -371,8 +371,8 @@ ssize_t verif_read(int fd, void *buf, size_t n)
       e = EINTR; /* EAGAIN only from a nonblocking descriptor; read never EPIPE */
     }
     fault(e);
-    g.rd_errno = e;
-    g.rd_ret = -1;
+    g.rl.rd_errno = e;
+    g.rl.rd_ret = -1;
     return -1;
   }
   long r = nondet_long();
@@ -380,28 +380,28 @@ ssize_t verif_read(int fd, void *buf, size_t n)
   if (r > 0) {
     __CPROVER_havoc_slice(buf, (size_t) r);
   }
-  g.rd_ret = r;
+  g.rl.rd_ret = r;
   return r;
 }
 
 ssize_t verif_write(int fd, const void *buf, size_t n)
 {
   os_call();
-  if (g.wr_calls < 1000) {
-    g.wr_calls++;
+  if (g.wl.wr_calls < 1000) {
+    g.wl.wr_calls++;
   }
-  g.wr_fd = fd;
-  g.wr_buf = buf;
-  g.wr_n = n;
-  g.wr_errno = 0;
+  g.wl.wr_fd = fd;
+  g.wl.wr_buf = buf;
+  g.wl.wr_n = n;
+  g.wl.wr_errno = 0;
   V_ASSERT("C02/os.write.descriptor_open", IS_OPEN(fd));
   if (!IS_OPEN(fd)) {
-    g.err = EBADF;
-    g.wr_errno = EBADF;
-    g.wr_ret = -1;
+    g.e.err = EBADF;
+    g.wl.wr_errno = EBADF;
+    g.wl.wr_ret = -1;
     return -1;
   }
-  bool blocking = (g.nonblock & BIT(fd)) == 0;
+  bool blocking = (g.fds.nonblock & BIT(fd)) == 0;
 
   /* child side: the report on the error pipe */
   if (g.in_child && n == sizeof(int)) {
@@ -434,8 +434,8 @@ ssize_t verif_write(int fd, const void *buf, size_t n)
       e = EINTR;
     }
     fault(e);
-    g.wr_errno = e;
-    g.wr_ret = -1;
+    g.wl.wr_errno = e;
+    g.wl.wr_ret = -1;
     return -1;
   }
   /* the bytes are read by the kernel: they must be readable */
@@ -448,7 +448,7 @@ ssize_t verif_write(int fd, const void *buf, size_t n)
   if (input) {
     g.stream_pos += (size_t) r;
   }
-  g.wr_ret = r;
+  g.wl.wr_ret = r;
   return r;
 }
 
@@ -457,14 +457,14 @@ ssize_t verif_write(int fd, const void *buf, size_t n)
 int verif_poll(struct pollfd *fds, nfds_t nfds, int timeout)
 {
   os_call();
-  if (g.poll_calls < 1000) {
-    g.poll_calls++;
+  if (g.pl.poll_calls < 1000) {
+    g.pl.poll_calls++;
   }
-  g.poll_timeout = timeout;
-  g.poll_at = g.now;
-  g.poll_fds = 0;
-  g.poll_ready = 0;
-  g.poll_nfds = nfds;
+  g.pl.poll_timeout = timeout;
+  g.pl.poll_at = g.now;
+  g.pl.poll_fds = 0;
+  g.pl.poll_ready = 0;
+  g.pl.poll_nfds = nfds;
   if (timeout != 0) {
     g.may_block = true;
   }
@@ -492,17 +492,17 @@ int verif_poll(struct pollfd *fds, nfds_t nfds, int timeout)
       } else {
         re = nondet_short();
         __CPROVER_assume((re & ~(fds[i].events | POLLHUP | POLLERR)) == 0);
-        g.poll_fds |= BIT(fd);
+        g.pl.poll_fds |= BIT(fd);
         if (re != 0) {
-          g.poll_ready |= BIT(fd);
+          g.pl.poll_ready |= BIT(fd);
         }
       }
     }
     fds[i].revents = re;
     if (i < 12) {
-      g.poll_fdv[i] = fd;
-      g.poll_evv[i] = fds[i].events;
-      g.poll_rev[i] = re;
+      g.pl.poll_fdv[i] = fd;
+      g.pl.poll_evv[i] = fds[i].events;
+      g.pl.poll_rev[i] = re;
     }
     if (re != 0) {
       count++;
@@ -512,8 +512,8 @@ int verif_poll(struct pollfd *fds, nfds_t nfds, int timeout)
   int e = maybe_fault();
   if (e) {
     fault(e);
-    g.poll_ret = -1;
-    g.poll_ready = 0;
+    g.pl.poll_ret = -1;
+    g.pl.poll_ready = 0;
     return -1;
   }
   /* an infinite poll returns only with an event */
@@ -527,7 +527,7 @@ int verif_poll(struct pollfd *fds, nfds_t nfds, int timeout)
     __CPROVER_assume(timeout < 0 || d <= timeout);
   }
   g.now += d;
-  g.poll_ret = count;
+  g.pl.poll_ret = count;
   return count;
 }
 
@@ -575,10 +575,10 @@ pid_t verif_waitpid(pid_t pid, int *wstatus, int options)
   bool own = pid > 0 && pid == g.child_pid && g.child_live && !g.child_reaped;
   V_ASSERT("C06/os.waitpid.own_unreaped_child", own);
   if (gc.plan_on) {
-    V_ASSERT("C01+C07/stop.reap_only_after_exit_seen", g.poll_ret > 0);
+    V_ASSERT("C01+C07/stop.reap_only_after_exit_seen", g.pl.poll_ret > 0);
   }
   if (!own) {
-    g.err = ECHILD;
+    g.e.err = ECHILD;
     return -1;
   }
   int e = maybe_fault();
@@ -622,7 +622,7 @@ int verif_kill(pid_t pid, int sig)
     /* escalation only after the preceding wait expired (and, for an
        until-deadline wait, only once the deadline has passed) */
     if (g.plan_pos > 0 && g.plan_pos <= 8 && gc.plan_kind[g.plan_pos - 1] == PLAN_WAIT) {
-      V_ASSERT("C07+C15/stop.escalates_only_after_wait_expired", g.poll_ret == 0);
+      V_ASSERT("C07+C15/stop.escalates_only_after_wait_expired", g.pl.poll_ret == 0);
       V_ASSERT("C15/stop.no_signal_before_deadline",
                gc.plan_arg[g.plan_pos - 1] != -2 ||
                    (gc.plan_deadline != -1 && g.now >= gc.plan_deadline));
@@ -654,27 +654,27 @@ int verif_execvp(const char *file, char *const argv[])
   __CPROVER_assert(0, "reach/exec");
 
   V_ASSERT("C10/exec.stdin_is_requested_object",
-           IS_OPEN(0) && g.obj[0] == gc.want_obj[0]);
+           IS_OPEN(0) && g.fds.obj[0] == gc.want_obj[0]);
   V_ASSERT("C10/exec.stdout_is_requested_object",
-           IS_OPEN(1) && g.obj[1] == gc.want_obj[1]);
+           IS_OPEN(1) && g.fds.obj[1] == gc.want_obj[1]);
   V_ASSERT("C10/exec.stderr_is_requested_object",
-           IS_OPEN(2) && g.obj[2] == gc.want_obj[2]);
-  V_ASSERT("C10/exec.std_streams_survive_exec", (g.cloexec & 7u) == 0);
+           IS_OPEN(2) && g.fds.obj[2] == gc.want_obj[2]);
+  V_ASSERT("C10/exec.std_streams_survive_exec", (g.fds.cloexec & 7u) == 0);
   V_ASSERT("C10/exec.stdin_direction",
-           gc.want_acc[0] != 1 || (g.rd & BIT(0)) != 0);
+           gc.want_acc[0] != 1 || (g.fds.rd & BIT(0)) != 0);
   V_ASSERT("C10/exec.stdout_direction",
-           gc.want_acc[1] != 2 || (g.wr & BIT(1)) != 0);
+           gc.want_acc[1] != 2 || (g.fds.wr & BIT(1)) != 0);
   V_ASSERT("C10/exec.stderr_direction",
-           gc.want_acc[2] != 2 || (g.wr & BIT(2)) != 0);
+           gc.want_acc[2] != 2 || (g.fds.wr & BIT(2)) != 0);
 
   /* C11: every other open descriptor is close-on-exec, except the exit handle */
   {
     uint32_t keep = 7u | MASK_OF(gc.want_exit_fd);
     V_ASSERT("C11/exec.nothing_else_inherited",
-             (g.open & ~g.cloexec & ~keep) == 0);
+             (g.fds.open & ~g.fds.cloexec & ~keep) == 0);
     V_ASSERT("C11/exec.exit_handle_inherited",
              IS_OPEN(gc.want_exit_fd) &&
-                 (gc.want_exit_fd <= 2 || (g.cloexec & BIT(gc.want_exit_fd)) == 0));
+                 (gc.want_exit_fd <= 2 || (g.fds.cloexec & BIT(gc.want_exit_fd)) == 0));
   }
 
   V_ASSERT("C12/exec.signal_mask_empty", g.sigmask == 0);
@@ -723,7 +723,7 @@ void verif__exit(int code)
   {
     bool refusal = gc.cfg_rlim_cur > 1048577UL;
     V_ASSERT("C04/child.report_is_real_cause",
-             (g.faults > 0 && g.child_report == g.last_fault) ||
+             (g.e.faults > 0 && g.child_report == g.e.last_fault) ||
                  (refusal && g.child_report == EMFILE));
   }
   V_ASSERT("C04/child.no_exec_after_failure", !g.execd);
@@ -789,12 +789,12 @@ int verif_pthread_sigmask(int how, const sigset_t *set, sigset_t *oldset)
   if ((g.sigmask_calls == 1 || g.in_child) && !gc.cfg_nofault && nondet_bool()) {
     int e = nondet_int();
     __CPROVER_assume(e > 0 && e < 134);
-    if (g.faults == 0) {
-      g.first_errno = e;
+    if (g.e.faults == 0) {
+      g.e.first_errno = e;
     }
-    g.last_fault = e;
-    if (g.faults < 1000) {
-      g.faults++;
+    g.e.last_fault = e;
+    if (g.e.faults < 1000) {
+      g.e.faults++;
     }
     return e;
   }
@@ -818,7 +818,7 @@ int verif_sigaction(int sig, const struct sigaction *act, struct sigaction *old)
   os_call();
   V_ASSERT("C12/os.sigaction.child_only", g.in_child);
   if (sig <= 0 || sig >= 65 || sig == SIGKILL || sig == SIGSTOP) {
-    g.err = EINVAL;
+    g.e.err = EINVAL;
     return -1;
   }
   int e = maybe_fault();
